@@ -303,15 +303,15 @@ def _harness_hash(files, extra=''):
     return h.hexdigest()[:10]
 
 
-def harness(config, flavour, name='xrlmon', extra_src=(), extra_flags=(), cxx=False):
+def harness(config, flavour, name='xrlmon', extra_src=(), extra_flags=(), cxx=False, compiler=None):
     """compile a harness program (harness/<name>.c[pp]) against lib(config, flavour)"""
     L = lib(config, flavour)
     st = sigtab()
-    hh = _harness_hash([os.path.join(HARNESS, name + ('.cpp' if cxx else '.c'))] + [os.path.join(HARNESS, s) for s in extra_src], ' '.join(extra_flags))
+    hh = _harness_hash([os.path.join(HARNESS, name + ('.cpp' if cxx else '.c'))] + [os.path.join(HARNESS, s) for s in extra_src], ' '.join(extra_flags) + (compiler or ''))
 
     def mk(d):
         src = os.path.join(HARNESS, name + ('.cpp' if cxx else '.c'))
-        comp = L['cxx'] if cxx else L['cc']
+        comp = compiler or (L['cxx'] if cxx else L['cc'])
         flags = list(L['cflags'])
         if flavour == 'fuzz':
             flags = [f.replace('fuzzer-no-link', 'fuzzer') for f in flags] + ['-Wno-unused-command-line-argument']
@@ -335,9 +335,10 @@ def cpptable():
     return _target('cpptable', mk)
 
 
-def cppmon(config, flavour):
+def cppmon(config, flavour, compiler=None):
+    """compiler: the header-only wrappers are compiled by the USER's compiler: 'clang++' gives the second one installed here"""
     t = cpptable()
-    return harness(config, flavour, 'cppmon', extra_flags=['-std=c++11', '-I' + t, '-Wno-deprecated-declarations'], cxx=True)
+    return harness(config, flavour, 'cppmon', extra_flags=['-std=c++11', '-I' + t, '-Wno-deprecated-declarations'], cxx=True, compiler=compiler)
 
 
 def java_bundle(config):
